@@ -295,7 +295,7 @@ impl SignatureConfig {
             hasher.update(salt.as_ref())
         }
 
-        serialize_for_hashing(signee, &mut hasher)?;
+        serialize_for_hashing(signee, self.version(), &mut hasher)?;
 
         let mut packet_buf = Vec::new();
         id.to_writer(&mut packet_buf)?;
@@ -371,8 +371,8 @@ impl SignatureConfig {
             hasher.update(salt.as_ref())
         }
 
-        serialize_for_hashing(signer_pub, &mut hasher)?; // primary
-        serialize_for_hashing(signee, &mut hasher)?; // subkey
+        serialize_for_hashing(signer_pub, self.version(), &mut hasher)?; // primary
+        serialize_for_hashing(signee, self.version(), &mut hasher)?; // subkey
 
         let len = self.hash_signature_data(&mut hasher)?;
         hasher.update(&self.trailer(len)?);
@@ -417,8 +417,8 @@ impl SignatureConfig {
             hasher.update(salt.as_ref())
         }
 
-        serialize_for_hashing(signee, &mut hasher)?; // primary
-        serialize_for_hashing(signer_pub, &mut hasher)?; // subkey
+        serialize_for_hashing(signee, self.version(), &mut hasher)?; // primary
+        serialize_for_hashing(signer_pub, self.version(), &mut hasher)?; // subkey
 
         let len = self.hash_signature_data(&mut hasher)?;
         hasher.update(&self.trailer(len)?);
@@ -457,7 +457,7 @@ impl SignatureConfig {
             hasher.update(salt.as_ref())
         }
 
-        serialize_for_hashing(key, &mut hasher)?;
+        serialize_for_hashing(key, self.version(), &mut hasher)?;
 
         let len = self.hash_signature_data(&mut hasher)?;
         hasher.update(&self.trailer(len)?);
